@@ -27,6 +27,9 @@ type lisOut struct {
 	Out    string      `json:"out"` // cfg | err | panic
 	Msg    string      `json:"msg"`
 	Listen [][3]string `json:"listen"` // (addr, proto, cert source name) of every listener of the option
+	// Stable: the same input, loaded again several times, gave the same outcome and the same listeners
+	// (parseListen ranges over a Go map; nothing observable may depend on its order)
+	Stable bool `json:"stable"`
 	// oracles for the external parsers, recomputed on every run
 	CsNames []string         `json:"cs_names"` // names defined by proxy.cs
 	AddrOf  [][2]*string     `json:"addr_of"`  // go-sockaddr template: raw -> parsed (null = error)
@@ -75,7 +78,7 @@ func genListener(r *hx.Rand, haveCs bool) string {
 	}
 	if r.Chance(3, 4) {
 		p := r.Pick(lisProtos)
-		if r.Chance(2, 5) {
+		if r.Chance(1, 4) {
 			p = respell(r, p)
 		}
 		parts = append(parts, "proto="+p)
@@ -86,9 +89,9 @@ func genListener(r *hx.Rand, haveCs bool) string {
 		parts = append(parts, "cs=nosuch")
 	}
 	for n := r.Intn(3); n > 0; n-- {
-		parts = append(parts, r.Pick([]string{"rt=1s", "wt=250ms", "it=0", "rt=x", "wt=", "pxyproto=true", "pxytimeout=1s", "pxytimeout=-",
-			"strictmatch=true", "tlsmin=tls12", "tlsmax=TLS13 ", "tlsmin=0x0303", "tlsmin=bogus", "tlsciphers=\"TLS_RSA_WITH_AES_128_CBC_SHA\"",
-			"tlsciphers=nosuch", "refresh=5s", "refresh=abc", "unknownkey=1", "proto=http", "rt=2s"}))
+		parts = append(parts, r.Pick([]string{"rt=1s", "wt=250ms", "it=0", "pxyproto=true", "pxytimeout=1s", "strictmatch=true", "tlsmin=tls12",
+			"tlsmax=TLS13 ", "tlsmin=0x0303", "tlsciphers=\"TLS_RSA_WITH_AES_128_CBC_SHA\"", "refresh=5s", "unknownkey=1", "proto=http", "rt=2s", "it=1m",
+			"rt=x", "wt=", "pxytimeout=-", "tlsmin=bogus", "tlsciphers=nosuch", "refresh=abc"}))
 	}
 	if r.Chance(1, 6) { // shuffle: the keys come out of a Go map anyway
 		for i := len(parts) - 1; i > 1; i-- {
@@ -181,16 +184,25 @@ func runListen(raw json.RawMessage) (interface{}, error) {
 	}
 	a, e, p := single(in.Opt, in.Src, in.Value)
 	args, env, props = append(args, a...), e, p
-	res := doLoad(args, env, props)
-	out.Out, out.Msg = res.Kind, res.Msg
-	if res.Kind == "cfg" {
-		if in.Opt == "ui.addr" {
-			out.Listen = append(out.Listen, listenTriple(res.Cfg.UI.Listen))
-		} else {
-			for _, l := range res.Cfg.Listen {
-				out.Listen = append(out.Listen, listenTriple(l))
+	load := func() (string, string, [][3]string) {
+		res := doLoad(args, env, props)
+		ls := [][3]string{}
+		if res.Kind == "cfg" {
+			if in.Opt == "ui.addr" {
+				ls = append(ls, listenTriple(res.Cfg.UI.Listen))
+			} else {
+				for _, l := range res.Cfg.Listen {
+					ls = append(ls, listenTriple(l))
+				}
 			}
 		}
+		return res.Kind, res.Msg, ls
+	}
+	out.Out, out.Msg, out.Listen = load()
+	out.Stable = true
+	for rep := 0; rep < 12 && out.Stable; rep++ {
+		k, _, ls := load()
+		out.Stable = k == out.Out && fmt.Sprint(ls) == fmt.Sprint(out.Listen)
 	}
 	return out, nil
 }
@@ -213,6 +225,8 @@ func init() {
 			lisIn{Opt: "proxy.addr", Value: "proto=tcp"},
 			lisIn{Opt: "ui.addr", Value: ""},
 			lisIn{Opt: "ui.addr", Value: ":1,:2"},
+			lisIn{Opt: "proxy.addr", Value: ":1;addr=:2"},
+			lisIn{Opt: "proxy.addr", Value: "addr=:2;proto=tcp;:1", Src: 1},
 		},
 		Gen: genListen,
 		Run: runListen,
